@@ -71,3 +71,29 @@ contract('ikesa.IkeSa._get_ipsec_configuration',
              'C12:inside-proposed': 'ts_in_some(result._1, payload_tsr.traffic_selectors) '
                                     'and ts_in_some(result._2, payload_tsi.traffic_selectors)',
          })
+
+
+# ---- get_network / from_network: BOUNDED stand-in for the ASSUMED get_network contract --------------------------------------
+def _get_network_bounded(t):
+    import json, os, subprocess
+    from pyvc.front import REPO
+    from pyvc.reflect import VENV_PY
+    here = os.path.dirname(os.path.dirname(os.path.abspath(__file__)))
+    env = dict(os.environ, PYTHONPATH=os.environ.get('PYVC_REPO', REPO), PYTHONDONTWRITEBYTECODE='1')
+    r = subprocess.run([VENV_PY, os.path.join(here, 'oracles', 'get_network_driver.py')], env=env,
+                       capture_output=True, text=True, timeout=300)
+    if r.returncode != 0:
+        yield ('bounded-get-network', False, 'driver failed: ' + r.stderr[-600:], 'bounded')
+        return
+    d = json.loads(r.stdout)
+    grid = (f"{d['cases']} cases: from_network -> get_network / get_port round trip for 84 IPv4 / IPv6 networks (prefix "
+            f"lengths 0..32 / 0..128 incl. the ends) x ports 0, 1, 443, 65535 x protocols any, TCP, UDP; and get_network of "
+            f"every ordered address range over 9 IPv4 and 6 IPv6 boundary addresses against the smallest covering network")
+    yield ('bounded-get-network', not d['bad'],
+           (f"first mismatches: {json.dumps(d['bad'][:3])} [grid: {grid}]" if d['bad'] else f'all equal to the reference. Grid: {grid}'),
+           'bounded')
+
+
+evalfact('selector-networks', ['C12'], _get_network_bounded,
+         'configured networks and ports survive from_network -> get_network / get_port exactly; a range maps to the smallest '
+         'covering network (bounded)')
